@@ -805,7 +805,9 @@ def check_C18(ck):
                 cur.append(n)
             else:
                 cur = []
+    lt = lifetime_programs(ck, tier_n(ck, 6, 40))
     ck.coverage = proof_coverage(ck, ["C18", "C18src"], {
+        "registration_object_lifetimes": lt,
         "translated_source": {"file": "lean/Yomm2/Generated/StaticListSrc.lean (tools/cpp2lean.py, from clang's AST of the header)",
                               "histories_run_on_translated_source": len(scripts), "differences_from_implementation": len(src_bad),
                               "translator_messages": getattr(ck.lean, "notes", [])},
@@ -1381,6 +1383,51 @@ def fresh_equivalent(lines):
     return out + [l for l in tail if l != "dump"]
 
 
+def lifetime_programs(ck, n):
+    """generated programs whose class registration objects (the real `use_classes` templates, in zero-initialised
+    static storage) are constructed and destroyed along random histories, several of them registering the same
+    class, some with identical lists; at each checkpoint update, the catalog and every call are compared with
+    the specification oracle given the registrations alive at that point. Returns the evidence entry."""
+    import hprog
+    rng = random.Random(repr((ck.seed, ck.prop, "lifetimes")))
+    progs, scripts, cats, meta = [], [], {}, []
+    for i in range(n):
+        reg = gen.gen_registry(rng, n_classes=rng.randint(3, 7), shapes=["V", "VV", "VNV", "NV"], abstract_p=0.15)
+        while not reg.methods:
+            reg = gen.gen_registry(rng, n_classes=rng.randint(3, 7), shapes=["V", "VV", "VNV", "NV"], abstract_p=0.15)
+        src, sc, cat = hprog.prog_lifetimes(reg, rng, checkpoints=rng.randint(3, 5))
+        name = "lt%d-%s" % (i, reg.family)
+        progs.append((name, src))
+        scripts.append((name, ["policy checked"] + sc))
+        cats[name] = cat
+        meta.append({"program": name, "classes": len(reg.parents), "registration_objects": src.count("using U"),
+                     "constructions": src.count("::make();"), "destructions": src.count("::kill();"), "checkpoints": len(cat)})
+    res = hprog.build_and_run(progs, jobs=16)
+    orc = verif.run_model(scripts, mode="--oracle")
+    calls = 0
+    for (name, src), (_, sc) in zip(progs, scripts):
+        rc, so, se = res[name]
+        got = [l for l in so.splitlines() if not l.startswith("catalog")]
+        gcat = [l for l in so.splitlines() if l.startswith("catalog")]
+        want = orc.get(name, [])
+        calls += len(got)
+        if any(f_ for _, f_ in ck.violations):
+            continue
+        if rc != 0 or got != want or gcat != cats[name]:
+            d_ = [(k_, a_, b_) for k_, (a_, b_) in enumerate(zip(got, want)) if a_ != b_][:3]
+            dc = [(k_, a_, b_) for k_, (a_, b_) in enumerate(zip(gcat, cats[name])) if a_ != b_][:2]
+            found = bool(d_) or bool(dc) or (rc is not None and rc != 0)
+            ck.violation(verif.write_replay(ck.prop, name, {
+                "property": ck.prop,
+                "kind": ("failing input: after this history of constructing and destroying class registration objects the program does not behave like a "
+                         "process holding the registrations that are alive" if found else "the generated program does not compile"),
+                "first_differences(line, program, specification)": d_, "catalog_differences(checkpoint, program, live registrations)": dc,
+                "history": [l.strip() for l in src.splitlines() if "::make();" in l or "::kill();" in l or l.strip() == "checkpoint();"],
+                "registration_objects": [l for l in src.splitlines() if l.startswith("using U")],
+                "rc": rc, "stderr": (se or "")[-1500:], "oracle_script": sc[:80], "program": "tools/hprog.py prog_lifetimes"}), found)
+    return {"programs": len(progs), "lines_compared": calls, "detail": meta[:6]}
+
+
 def check_C07(ck):
     rng = random.Random(repr((ck.seed, "C07")))
     scripts = load_corpus("C07")
@@ -1421,7 +1468,9 @@ def check_C07(ck):
     for _, ls in scripts:
         for l in ls:
             ops[l.split()[0]] = ops.get(l.split()[0], 0) + 1
+    lt = lifetime_programs(ck, tier_n(ck, 8, 60))
     ck.coverage = proof_coverage(ck, ["C07"], {
+        "registration_object_lifetimes": lt,
         "evaluations": len(scripts), "distinct_nontrivial": len({repr(l) for n_, l in scripts if not n_.endswith("-fresh") and sum(1 for x in l if x == "update") >= 2}),
         "rule": "random histories of class / method / definition registrations and removals interleaved with updates (some repeated with no change), under "
                 "9 policy flavours (eager, projected, deferred ids; hashed or not); after every update a dump and a sweep of calls are compared with the model, "
@@ -1431,7 +1480,10 @@ def check_C07(ck):
         "samples": [{"name": n_, "script": ls[:40]} for n_, ls in scripts[:1]],
     })
     ck.assumptions = ["catalogs are modelled as lists (tied to the intrusive list by C18)",
-                      "calls are issued only while the latest update has completed (an update that raised leaves the tables unspecified)"]
+                      "calls are issued only while the latest update has completed (an update that raised leaves the tables unspecified)",
+                      "definitions and methods cannot be unregistered through the public interface inside one process (their records are function-local or "
+                      "template statics): their removal is exercised on hand-built records (H-dyn), the construction and destruction of class registration "
+                      "objects on the real use_classes templates (generated programs)"]
 
 
 def check_C10(ck):
@@ -1683,14 +1735,14 @@ def check_C12(ck):
     so_cases = []
     n_so = 2 if ck.tier == "quick" else 8
     for i in range(n_so):
-        perm = list(range(5))
+        perm = list(range(6))
         rng.shuffle(perm)
         checked = (i % 2 == 0)
         tampers = []
         if checked:
             for _ in range(3 if ck.tier == "quick" else 5):
                 mname = rng.choice(["m1", "m2", "m3", "m4", "m5"])
-                ar = {"m1": 1, "m2": 1, "m3": 2, "m4": 3, "m5": 2}[mname]
+                ar = {"m1": 1, "m2": 1, "m3": 2, "m4": 3, "m5": 2, "m6": 1}[mname]
                 which = "slot" if ar == 1 or rng.random() < 0.5 else "stride"
                 idx = rng.randrange(ar if which == "slot" else ar - 1)
                 tampers.append((mname, which, idx, rng.randint(1, 3)))
@@ -1699,39 +1751,78 @@ def check_C12(ck):
     for name, perm, checked, tampers in so_cases:
         r = hprog.static_offsets_case(name, perm, checked, tampers)
         a, b = r.get("stageA", (None, "", "")), r.get("stageB", (None, "", "missing"))
-        la = [l for l in a[1].splitlines() if not l.startswith("static ")]
-        lb = [l for l in b[1].splitlines() if not l.startswith("static ")]
-        ok = a[0] == 0 and b[0] == 0 and la == lb and "static 1 1 1 1 1" in b[1] and "static 0 0 0 0 0" in a[1]
+        def phases(text):
+            ls = [l for l in text.splitlines() if not l.startswith("static ")]
+            k = ls.index("phase2") if "phase2" in ls else len(ls)
+            return ls[:k], ls[k + 1:]
+        la, la2 = phases(a[1])
+        lb, lb2 = phases(b[1])
+        ok = a[0] == 0 and b[0] == 0 and la == lb and "static 1 1 1 1 1 1" in b[1] and "static 0 0 0 0 0 0" in a[1]
         entry = {"case": name, "declaration_order": perm, "checked_policy": checked, "calls_compared": len([l for l in la if " -> " in l]),
                  "stage_b_equals_stage_a": la == lb, "tampers": []}
         if not ok and not any(f_ for _, f_ in ck.violations):
             d_ = [x for x in zip(la, lb) if x[0] != x[1]][:3]
-            found = a[0] == 0 and b[0] == 0 and bool(d_)
+            # a crash of the program compiled with the generated offsets, where the one reading them at run time
+            # completes, is a failing input too (typically a stale or wrong offset accepted and followed)
+            found = a[0] == 0 and b[0] is not None and (b[0] != 0 or bool(d_))
             if found:
                 ck.violations = []      # a concrete failing program replaces a correspondence break without input
             ck.violation(verif.write_replay("C12", name, {
                 "property": "C12", "kind": ("failing input: a program compiled with the generated static offsets dispatches differently from the one reading them at run time"
                                             if found else "the two-stage program does not build or run"),
                 "program": "tools/hprog.py static_offsets_case(%r, %r, %r)" % (name, perm, checked),
-                "differences(run time, static)": d_, "stageA": list(a)[0:1] + [a[2][-800:]], "stageB": list(b)[0:1] + [b[2][-800:]]}), found)
+                "differences(run time, static)": d_, "stageA": list(a)[0:1] + [a[2][-800:]], "stageB": list(b)[0:1] + [b[2][-800:]],
+                "last_lines_of_the_static_program": b[1].splitlines()[-4:], "lines_printed(run time, static)": [len(a[1].splitlines()), len(b[1].splitlines())]}), found)
         # what the installed arrays are, per method
         inst = {}
-        for l in a[1].splitlines():
+        for l in la:
             m_ = re.match(r"ss \S*YoMm2_S_(m\d)\S* \[(.*)\]", l)
             if m_:
                 inst[m_.group(1)] = [int(x) for x in m_.group(2).split(",") if x]
+        # phase 2 (checked policy): a class registered late joins two hierarchies, the second update moves slots; the
+        # offsets generated from the first update are now stale for some methods: exactly their calls must be rejected
+        # by the cross-check, as the model prescribes, and the others must dispatch as at run time
+        if checked and ok:
+            inst2 = {}
+            for l in la2:
+                m_ = re.match(r"ss \S*YoMm2_S_(m\d)\S* \[(.*)\]", l)
+                if m_:
+                    inst2[m_.group(1)] = [int(x) for x in m_.group(2).split(",") if x]
+            moved, p2bad = [], None
+            if [l for l in la2 if l.startswith("ss ")] != [l for l in lb2 if l.startswith("ss ")]:
+                p2bad = ("installed arrays differ in phase 2", la2[:6], lb2[:6])
+            for mname in sorted(inst2):
+                ar = {"m1": 1, "m2": 1, "m3": 2, "m4": 3, "m5": 2, "m6": 1}[mname]
+                want = verif.run_model([("t", ["static-check %d %s | %s" % (ar, " ".join(map(str, inst.get(mname, []))), " ".join(map(str, inst2[mname])))])]).get("t", [""])[0].replace("static-check ", "")
+                ca = [l for l in la2 if l.startswith(mname + "(")]
+                cb = [l for l in lb2 if l.startswith(mname + "(")]
+                if want == "ok":
+                    if ca != cb and not p2bad:
+                        p2bad = ("method %s: offsets still current, yet the static program dispatches differently" % mname, ca[:3], cb[:3])
+                else:
+                    moved.append(mname)
+                    if (not cb or not all(l.endswith("-> " + want) for l in cb)) and not p2bad:
+                        p2bad = ("method %s: stale static offsets %s (installed now %s) must be rejected with %s" % (mname, inst.get(mname), inst2[mname], want), ca[:3], cb[:3])
+            entry["phase2"] = {"methods_whose_offsets_moved": moved, "calls": len([l for l in lb2 if " -> " in l]), "as_model": p2bad is None}
+            if p2bad and not any(f_ for _, f_ in ck.violations):
+                ck.violations = []
+                ck.violation(verif.write_replay("C12", name + "-phase2", {
+                    "property": "C12", "kind": "failing input: after a later update moved slots, the debug-build cross-check does not reject the stale static offsets (or rejects current ones)",
+                    "what": p2bad[0], "run_time_program": p2bad[1], "static_program": p2bad[2],
+                    "program": "tools/hprog.py static_offsets_case(%r, %r, %r)" % (name, perm, checked)}), True)
         for (mname, which, idx, delta), t_ in zip(tampers, r.get("tampers", [])):
             desc, rc, so, se = t_
-            ar = {"m1": 1, "m2": 1, "m3": 2, "m4": 3, "m5": 2}[mname]
+            ar = {"m1": 1, "m2": 1, "m3": 2, "m4": 3, "m5": 2, "m6": 1}[mname]
             st = list(inst.get(mname, []))
             pos = idx if which == "slot" else ar + idx
             if pos < len(st):
                 st[pos] += delta
             want = verif.run_model([("t", ["static-check %d %s | %s" % (ar, " ".join(map(str, st)), " ".join(map(str, inst.get(mname, []))))])]).get("t", [""])[0]
             want_kind = want.replace("static-check ", "")
-            calls = [l for l in so.splitlines() if l.startswith(mname + "(")]
+            so1 = phases(so)[0]
+            calls = [l for l in so1 if l.startswith(mname + "(")]
             others_a = [l for l in la if " -> " in l and not l.startswith(mname + "(")]
-            others_t = [l for l in so.splitlines() if " -> " in l and not l.startswith(mname + "(")]
+            others_t = [l for l in so1 if " -> " in l and not l.startswith(mname + "(")]
             good = rc == 0 and calls and all(l.endswith("-> " + want_kind) for l in calls) and others_a == others_t and want_kind != "ok"
             entry["tampers"].append({"tamper": desc, "model": want_kind, "rejected_calls": len(calls), "as_model": bool(good)})
             if not good and not ck.violations:
